@@ -33,7 +33,7 @@ func init() {
 func sortedPseudo(b *board.Board) []uint64 {
 	var gen []uint64
 	for _, m := range posgen.Pseudo(b) {
-		gen = append(gen, uint64(m))
+		gen = append(gen, hx.M2U(m))
 	}
 	sort.Slice(gen, func(i, j int) bool { return gen[i] < gen[j] })
 	return gen
@@ -44,7 +44,7 @@ func runC05(a hx.Args) string {
 	out := &hx.Nums{}
 	var acc []uint64
 	for m := 0; m < 32768; m++ {
-		if b.IsPseudoLegal(move.Move(m)) {
+		if b.IsPseudoLegal(hx.U2M(uint64(m))) {
 			acc = append(acc, uint64(m))
 		}
 	}
@@ -318,7 +318,7 @@ func runC05u(a hx.Args) string {
 	if err != nil {
 		out.U(0, 0)
 	} else {
-		out.U(1, uint64(m))
+		out.U(1, hx.M2U(m))
 	}
 	gen := sortedPseudo(b)
 	out.Int(len(gen)).U(gen...)
